@@ -69,8 +69,24 @@ def replay(pid, path, seed):
         rep.sample(scn)
     elif eng == "cli":
         w = checks_cli.World(pid, tpl, seed)
-        checks_cli.run_configs(rep, pid, "replay", w, [rp["observed"]["cfg"]], [pid + "_", "C12_exit", "C12_error"])
+        checks_cli.run_configs(rep, pid, "replay", w, [rp["observed"]["cfg"]], [pid + "_", "C12_exit", "C12_error"],
+                               psize=rp["observed"].get("psize"))
         rep.sample(rp["observed"]["cfg"])
+    elif eng == "clirt":
+        import cli
+        import cli_rt
+        from vlib import workdir, write_jsonl, validate_trace
+        c = rp["case"]
+        keys = cli.make_keys(pid, tpl, seed, [("alice", b"alice-pw"), ("bob", b"bob-pw")])
+        ev = cli_rt.one(pid, tpl, seed, keys, c["prop"], c["mode"], c["plen"], c["wiring"], c["history"], c["idx"])
+        tp = os.path.join(workdir(pid, "run-replay", clean=True), "trace.ndjson")
+        write_jsonl(tp, [ev])
+        v = validate_trace(pid, "replay", "Trace_Cli", tp, 1)
+        rep.add_trace_run("replay", v, 1, 1)
+        for (ln, pred) in v["viols"]:
+            rep.violation("%s id=%s plen=%d wiring=%s history=%s" % (pred, ev["id"], ev["plen"], ev["wiring"], ev["history"]),
+                          {"engine": "clirt", "observed": ev, "case": c})
+        rep.sample(c)
     elif eng == "argv":
         import cli
         v = rp["observed"]["argv"]
